@@ -534,6 +534,16 @@ func c20Cases(tier string) ([]c20Case, []c20RPC, [][]c20Mut) {
 		}
 		// Batches of well-formed entries of every listed size (one departure: the length of the list).
 		switch def.(type) {
+		case *pb.ListAccountsRequest:
+			// Lists of three paths over a wallet that exists and one that does not (what the lister keeps from one path
+			// of a request to the next).
+			k, u := "Wallet 1", "No such wallet"
+			for _, pl := range [][]string{{k, u, u}, {k, u, u + "/.*"}, {u, u, k}, {u, k, u}, {k, k, u}, {k, u, k}, {u + "/a", u + "/b", k + "/.*"}, {k + "/acct-1", u, u + "/acct-1"}} {
+				pl := pl
+				ms = append(ms, c20Mut{Desc: fmt.Sprintf("%s.paths=%q", r.Name, pl), Set: func(m protoreflect.Message) {
+					m.Interface().(*pb.ListAccountsRequest).Paths = pl
+				}})
+			}
 		case *pb.MultisignRequest:
 			for _, tw := range c20Twice() {
 				tw := tw
